@@ -248,6 +248,9 @@ def r2_key_tables(ctx):
     rets = [r.value.id for r in walk_local(mc.node) if isinstance(r, ast.Return) and isinstance(r.value, ast.Name)]
     cfg_name = rets[0] if rets else None
     stores = {t.slice.value for a in walk_local(mc.node) if isinstance(a, ast.Assign) for t in a.targets if isinstance(t, ast.Subscript) and isinstance(t.value, ast.Name) and t.value.id == cfg_name and isinstance(t.slice, ast.Constant)}
+    for a in walk_local(mc.node):
+        if isinstance(a, ast.Assign) and any(isinstance(t, ast.Name) and t.id == cfg_name for t in a.targets) and isinstance(a.value, ast.Dict):
+            stores |= {k.value for k in a.value.keys if isinstance(k, ast.Constant)}
     ctx.check(stores == SCHEMA['config'], 'C14.R2', f'{func_label(mc)}|written:config', loc(mc, mc.node), f'config keys written == {sorted(SCHEMA["config"])}', f'config keys written {sorted(stores)} != schema')
     snap = corpus.func('repository', 'Repository.snapshot')
     body = _dict_literal_keys(snap.node, {'chunks', 'data'})
